@@ -4,7 +4,8 @@ CFG = {
     "lean_files": ["GeoModel/RelateSpec.lean", "GeoModel/Valid.lean", "GeoModel/Locate.lean", "GeoModel/Segment.lean",
                    "GeoModel/LineIntersection.lean", "GeoModel/Ops/C01.lean",
                    "GeoProofs/Lemmas/RelateSpecLemmas.lean", "GeoProofs/Lemmas/RelateSpecLocate.lean",
-                   "GeoProofs/Lemmas/RelateSpecBBox.lean", "GeoProofs/Lemmas/RelateSpecSwap.lean"],
+                   "GeoProofs/Lemmas/RelateSpecBBox.lean", "GeoProofs/Lemmas/RelateSpecSwap.lean",
+                   "GeoProofs/Lemmas/RelateSpecDisjoint.lean"],
     "rule": "ordered pairs (A, B) over all 10 geometry types (Geometry enum on both sides) drawn from one shared 3..6 grid: polyomino polygons with "
             "holes (incl. holes tangent to the shell), star polygons, rectangles with holes, corner-touching multipolygons, self-avoiding lattice "
             "paths, multi line strings sharing end points (mod-2 rule), half-grid points, same-dimension collections; each case also relates the "
@@ -38,9 +39,11 @@ MANIFEST = {
             "(locateParts_linear_boundary/_inside/_outside), areal boundary = ring points not strictly inside a member (locateParts_areal_boundary, "
             "_conv), points interior-only (locateParts_points_inside/_not_boundary); (5) disjoint-envelope lemma: a point, or perturbed face sample, "
             "strictly outside the coordinate bounding box on any of the four sides is located outside (locate_outside_bbox, locateFace_outside_bbox; the "
-            "left side uses that a closed ring crosses a horizontal line upward as often as downward); matrix algebra (transpose involution, "
+            "left side uses that a closed ring crosses a horizontal line upward as often as downward), and in matrix form: for operands whose "
+            "coordinate bounding boxes are strictly separated along an axis every arrangement atom is exterior to one operand, so II, IB, BI, BB are F — the "
+            "shape FF*FF**** that compute_disjoint emits (atom_outside_of_sep, relateParts_sep, computeDisjoint_shape); matrix algebra (transpose involution, "
             "set_at_least/transposition commutation, symmetry of the disjoint-envelope shortcut). Not proved: invariance of the whole matrix (beyond "
-            "point location) under ring re-writing; that relateParts equals computeDisjoint for separated envelopes. The adequacy of the "
+            "point location) under ring re-writing; that the remaining cells (IE, BE, EI, EB) of separated operands equal the dimensions passed to compute_disjoint. The adequacy of the "
             "specification w.r.t. point-set topology is an explicit assumption (S1, S2), not a theorem.",
     "note": "Trusted: Lean kernel + audited axioms; the harness/generators (sampling); spec adequacy S1/S2. Defects found by this check and repaired in /repo: "
             "Triangle vertical edge (29720670), MultiPolygon shared vertex (5f41a6da), MultiLineString boundary_dimensions mod-2 (17c66966).",
